@@ -5,6 +5,7 @@ helper lemmas are in Lemmas/Xfer and Lemmas/Raw.
 -/
 import Teleport.Lemmas.Xfer
 import Teleport.Props.C05
+import Teleport.Gen.Consts
 namespace Teleport
 namespace C12
 open Xfer
@@ -327,6 +328,31 @@ theorem C12_reg_unique_never_replaced (es : List Entry) (e : Entry) :
 example : (reg [⟨1, [118], Drv.fRev⟩] ⟨2, [119], Drv.fXor⟩).isSome = true ∧
     (reg [⟨1, [118], Drv.fRev⟩] ⟨1, [119], Drv.fXor⟩).isSome = false ∧
     (reg [⟨1, [118], Drv.fRev⟩] ⟨2, [118], Drv.fXor⟩).isSome = false := by decide
+
+
+/-! ### tie A — pipe length limit and digest length (fact group `Consts`) -/
+
+/-- **C12 tie A, limits**: the largest pipe `XferPipe.check` and `XferPipe.AppendFrom` accept (the
+    comparison with `math.MaxUint8`, normalised to "largest accepted length") is the bound of the model's
+    `append` / `appendSt` / `appendFrom` / `callPipe` — checked by RUNNING them at the limit and one
+    above; `md5Length` is the digest length `md5F` cuts off. -/
+theorem C12_consts_pipe_limits :
+    Gen.consts_missing = [] ∧
+    Gen.consts_len_limits = [("XferPipe.check", 255), ("XferPipe.AppendFrom", 255)] ∧
+    (Gen.consts_len_limits.all fun p =>
+      (Xfer.append Drv.testReg [] (List.replicate p.2 1)).isSome &&
+      (Xfer.append Drv.testReg [] (List.replicate (p.2 + 1) 1)).isNone &&
+      (appendSt Drv.testReg (List.replicate (p.2 - 1) 1) [2]).2 &&
+      !(appendSt Drv.testReg (List.replicate p.2 1) [2]).2 &&
+      appendFrom (List.replicate (p.2 - 1) 1) [2] == List.replicate (p.2 - 1) 1 ++ [2] &&
+      appendFrom (List.replicate p.2 1) [2] == List.replicate p.2 1 &&
+      callPipe (List.replicate p.2 1) [2] == [2] &&
+      callPipe (List.replicate (p.2 - 1) 1) [2] == List.replicate (p.2 - 1) 1 ++ [2]) = true ∧
+    md5Length = Gen.consts_md5_length ∧
+    (md5F fun _ => List.replicate Gen.consts_md5_length 0).unpack (List.replicate (Gen.consts_md5_length - 1) 0) = none ∧
+    (md5F fun _ => List.replicate Gen.consts_md5_length 0).unpack (List.replicate Gen.consts_md5_length 0) = some [] := by
+  decide +kernel
+
 
 end C12
 end Teleport
